@@ -144,6 +144,7 @@ theorem C07_source_validDictCap (d : BitVec 64) (fuel : Nat) (hf : 40 ≤ fuel) 
       (List.range 32).any (fun n => decide (10 ≤ n) && (decide (d.toNat = 2 ^ n) || decide (d.toNat = 2 ^ n + 2 ^ (n - 1))))) :=
   GoSrcP.validDictCap_spec d fuel hf
 
-theorem C07_source_translation_complete : GoSrc.failures = [] := by decide
+-- (that every function on the translation list was translated is required once, in Props/C02 and Props/C03; a function of
+-- this property that fell out of the translator's subset would make the theorems above fail to elaborate)
 
 end Props.C07
